@@ -28,6 +28,7 @@ REGISTRY = {
     "S03": ("checks.extra_checks", "s03"),
     "S04": ("checks.extra_checks", "s04"),
     "S05": ("checks.extra_checks", "s05"),
+    "S06": ("checks.extra_checks", "s06"),
     "C04": ("checks.arith_checks", "c04"),
     "C05": ("checks.arith_checks", "c05"),
     "C12": ("checks.controlb_checks", "c12"),
